@@ -254,8 +254,6 @@ class RDTrajectory :
         if t<=self.t.get_at(0) :
             return 0
         
-        if t==self.t.get_at(self.nsamples()-1) :
-            return self.nsamples()-1
 
         if t>self.t.get_at(self.nsamples()-1) :
             return None
